@@ -230,7 +230,7 @@ func TestProperty(t *testing.T) {
 		}, Prop: propTotal,
 			Rule: "any G1/G2/G3 byte string: Format on a bytes.Buffer returns nil, is deterministic, equals formatting to a plain io.Writer, leaves the tree dump unchanged; then a failing writer (with and without WriteString) at every call index k of the healthy run (all k when <= 48 calls, 24 spread out otherwise): errors.Is(err, sentinel), no call after the failing one, bytes written before are a prefix of the healthy output; non-trivial = the healthy run makes >= 3 writes"},
 		{Name: "canonical", Quick: 30000, Thorough: 400000, Gen: genCanonical(model.Small), Prop: propRoundTrip,
-			Rule: "canonical-style documents (G4 with every serializer choice pinned except the marker characters the formatter copies through: bullet, ordered delimiter, emphasis character; supported construct set and restrictions r1, r4, r5, r6 of DESIGN.md; titles, text and destinations unrestricted): HTML(Parse(Format(Parse(d)))) equals HTML(Parse(d)) in the O3 form, and formatting the result again reproduces it byte for byte; non-trivial = container depth >= 2, a loose list, a reference link, or a code block with fence-like lines"},
+			Rule: "canonical-style documents (G4 with every serializer choice pinned except the marker characters the formatter copies through: bullet, ordered delimiter, emphasis character; supported construct set and restrictions r4, r5 of DESIGN.md; everything else unrestricted: multi-line inline constructs in containers, tight items with several blocks, empty items, titles, text, destinations): HTML(Parse(Format(Parse(d)))) equals HTML(Parse(d)) in the O3 form, and formatting the result again reproduces it byte for byte; non-trivial = container depth >= 2, a loose list, a reference link, or a code block with fence-like lines"},
 		{Name: "canonical_large", Quick: 3000, Thorough: 50000, Gen: genCanonical(model.Large), Prop: propRoundTrip, Rule: "larger size bounds: canonical-style round trip"},
 	}})
 }
